@@ -89,6 +89,17 @@ WriteMem(regs, addr, data) ==
         o == addr - r
     IN [regs EXCEPT ![r] = [i \in 1..Len(@) |-> IF i > o /\ i <= o + Len(data) THEN data[i - o] ELSE @[i]]]
 Reg0(regs) == IF 0 \in DOMAIN regs THEN regs[0] ELSE <<>>
+\* what a sequence of write requests leaves at addresses base .. base+n-1 (256 = never written), and
+\* the set of addresses it touches: layouts are judged on the bytes stored, not on how the
+\* library cuts them into requests
+Written(wrote, base, n) ==
+    [i \in 1..n |-> LET a == base + i - 1
+                        ws == {k \in DOMAIN wrote : wrote[k].addr <= a /\ a < wrote[k].addr + Len(wrote[k].data)}
+                    IN IF ws = {} THEN 256
+                       ELSE LET k == CHOOSE x \in ws : \A y \in ws : y <= x IN wrote[k].data[a - wrote[k].addr + 1]]
+Touched(wrote) == UNION {{wrote[k].addr + j - 1 : j \in 1..Len(wrote[k].data)} : k \in DOMAIN wrote}
+Span(base, n) == {base + j - 1 : j \in 1..n}
+StoredExactly(wrote, base, img) == Written(wrote, base, Len(img)) = img /\ Touched(wrote) = Span(base, Len(img))
 
 \* ------------------------------------------------------------------ EEPROM radio configuration
 \* content: [ver, ch, speed, pitch (4 bytes), roll (4 bytes), addr (5 bytes, little endian)]
@@ -111,7 +122,7 @@ EepromClause(c, wrote, regs, o) ==
         cov == EepromCovered(m[5])
         sumOk == Sum256(SubSeq(m, 1, cov - 1)) = m[cov]
         diff == {i \in 1..n : m[i] # img[i]}
-    IN IF ~(Len(wrote) = 1 /\ wrote[1].addr = 0 /\ wrote[1].data = img) THEN "EepromLayout"
+    IN IF ~StoredExactly(wrote, 0, img) THEN "EepromLayout"
        ELSE IF Len(m) < 21 THEN "ok"
        ELSE IF inDomain /\ rv /\ ~sumOk THEN "EepromValidDespiteChecksum"
        ELSE IF inDomain /\ ~rv /\ sumOk THEN "EepromChecksumOkRejected"
@@ -135,9 +146,10 @@ Tlv(a) == TlvFrom(a, 1, <<>>)
 OwFieldsEq(p, c) == /\ p.pins = c.pins /\ p.vid = c.vid /\ p.pid = c.pid
                     /\ Len(p.elems) = Len(c.elems) /\ ToSet(p.elems) = ToSet(c.elems)
 
+OwWritten(wrote) == LET T == Touched(wrote) IN Written(wrote, 0, Cardinality(T))
 OwLayoutOk(c, wrote) ==
-    /\ Len(wrote) = 1 /\ wrote[1].addr = 0
-    /\ LET W == wrote[1].data  wl == Len(W) IN
+    /\ Touched(wrote) = Span(0, Cardinality(Touched(wrote)))
+    /\ LET W == OwWritten(wrote)  wl == Len(W) IN
        /\ wl >= 11 /\ SubSeq(W, 1, 8) = OwHeader(c)
        /\ W[9] = 0 /\ wl = 11 + W[10]
        /\ W[wl] = Crc8(SubSeq(W, 9, wl - 1))
@@ -147,7 +159,7 @@ OwLayoutOk(c, wrote) ==
 OwClause(c, wrote, regs, o) ==
     LET m == Reg0(regs)
         rv == ReportedValid(o)
-        W == wrote[1].data
+        W == OwWritten(wrote)
         hdrOk == Len(m) >= 11 /\ m[1] = 235 /\ m[8] = Crc8(SubSeq(m, 1, 7))
         L == m[10]
         areaIn == 11 + L <= Len(m)
@@ -166,12 +178,14 @@ OwClause(c, wrote, regs, o) ==
 \* content: [geos: Seq([id, f (12 floats of 4 bytes), valid]), calibs: Seq([id, f (14 floats), uid (4 bytes), valid])]
 GeoImage(g) == Concat(g.f) \o <<B2N(g.valid)>>
 CalibImage(k) == Concat(k.f) \o k.uid \o <<B2N(k.valid)>>
-LhExpectedWrites(c) ==
-    {[addr |-> c.geos[i].id * 256, data |-> GeoImage(c.geos[i])] : i \in DOMAIN c.geos} \cup
-    {[addr |-> 4096 + c.calibs[i].id * 256, data |-> CalibImage(c.calibs[i])] : i \in DOMAIN c.calibs}
+LhPagesOk(c, wrote) ==
+    /\ \A i \in DOMAIN c.geos : Written(wrote, c.geos[i].id * 256, 49) = GeoImage(c.geos[i])
+    /\ \A i \in DOMAIN c.calibs : Written(wrote, 4096 + c.calibs[i].id * 256, 61) = CalibImage(c.calibs[i])
+    /\ Touched(wrote) = UNION ({Span(c.geos[i].id * 256, 49) : i \in DOMAIN c.geos} \cup
+                               {Span(4096 + c.calibs[i].id * 256, 61) : i \in DOMAIN c.calibs})
 \* nbs: the number of base stations the (fake) firmware supports; obs: [geos, calibs, wok]
 LhClause(c, wrote, nbs, o) ==
-    IF ~(ToSet(wrote) = LhExpectedWrites(c) /\ Len(wrote) = Len(c.geos) + Len(c.calibs)) THEN "LhLayout"
+    IF ~LhPagesOk(c, wrote) THEN "LhLayout"
     ELSE IF \E i \in DOMAIN c.geos : c.geos[i].id < nbs /\ c.geos[i] \notin ToSet(o.geos) THEN "LhGeoLost"
     ELSE IF \E i \in DOMAIN c.calibs : c.calibs[i].id < nbs /\ c.calibs[i] \notin ToSet(o.calibs) THEN "LhCalibLost"
     ELSE "ok"
@@ -197,8 +211,7 @@ ParamFileClause(c, o) ==
 PolyImage(p) == Concat(p.x) \o Concat(p.y) \o Concat(p.z) \o Concat(p.yaw) \o p.dur
 PolyAll(ps) == Concat([i \in 1..Len(ps) |-> PolyImage(ps[i])])
 PolyClause(c, wrote) ==
-    IF Len(wrote) = 1 /\ wrote[1].addr = c.addr /\ wrote[1].data = PolyAll(c.pieces) THEN "ok"
-    ELSE "PolyLayout"
+    IF StoredExactly(wrote, c.addr, PolyAll(c.pieces)) THEN "ok" ELSE "PolyLayout"
 
 \* LED timing sequence.  content: [timings: Seq([time 1..255, r, g, b, leds 0..15, fade 0..1, rotate 0..7])]
 LedEntry(t) == LET r5 == ((t.r * 249 + 1014) \div 2048) % 32
@@ -208,8 +221,7 @@ LedEntry(t) == LET r5 == ((t.r * 249 + 1014) \div 2048) % 32
                IN <<t.time, led \div 256, led % 256, t.leds + 16 * t.fade + 32 * t.rotate>>
 LedAll(ts) == Concat([i \in 1..Len(ts) |-> LedEntry(ts[i])]) \o <<0, 0, 0, 0>>
 LedClause(c, wrote) ==
-    IF Len(wrote) = 1 /\ wrote[1].addr = 0 /\ wrote[1].data = LedAll(c.timings) THEN "ok"
-    ELSE "LedLayout"
+    IF StoredExactly(wrote, 0, LedAll(c.timings)) THEN "ok" ELSE "LedLayout"
 
 \* ------------------------------------------------------------------ device-encoded sections
 \* deck memory info section: 1 version byte + 8 records of 32 bytes
